@@ -63,8 +63,28 @@ type workerResult struct {
 	Samples     []any                `json:"samples"`
 }
 
+// fixedZones: process zones that are not IANA zones - time.FixedZone with a name of the
+// application's choosing (spelled "fixed|<name>|<seconds east>"). The JSON form carries that name;
+// whatever it looks like, the library's own encoding must decode, to the same instant.
+var fixedZones = []string{"fixed|UTC+3|10800", "fixed|GMT+03:00|10800", "fixed|Office Time|3600", "fixed|utc|0", "fixed|local|-18000", "fixed|X|7200", "fixed|Zone 51|-12600", "fixed|EST5EDT|-18000", "fixed|Europe/Berlin|3600", "fixed|+03|10800", "fixed|UTC-03:30|-12600", "fixed|\u6771\u4eac|32400"}
+
+func loadZone(name string) (*time.Location, error) {
+	if strings.HasPrefix(name, "fixed|") {
+		parts := strings.Split(name, "|")
+		if len(parts) != 3 {
+			return nil, fmt.Errorf("bad fixed zone %q", name)
+		}
+		off, err := strconv.Atoi(parts[2])
+		if err != nil {
+			return nil, err
+		}
+		return time.FixedZone(parts[1], off), nil
+	}
+	return time.LoadLocation(name)
+}
+
 func zoneList() ([]string, error) {
-	zones := append([]string{}, quickZones...)
+	zones := append(append([]string{}, quickZones...), fixedZones...)
 	if R.Quick() {
 		return zones, nil
 	}
@@ -173,7 +193,7 @@ func workerMain() {
 		os.Exit(2)
 	}
 	for i := k; i < len(zones); i += n {
-		loc, err := time.LoadLocation(zones[i])
+		loc, err := loadZone(zones[i])
 		if err != nil {
 			res.Machinery = append(res.Machinery, fmt.Sprintf("cannot load zone %s: %v", zones[i], err))
 			continue
@@ -347,7 +367,7 @@ func checkDateTime(zone string, loc *time.Location, unix int64) (ambiguous bool)
 }
 
 func replayDateTime(x dtCase) {
-	loc, err := time.LoadLocation(x.Zone)
+	loc, err := loadZone(x.Zone)
 	if err != nil {
 		R.Machinery("cannot load zone %s: %v", x.Zone, err)
 		return
